@@ -1065,7 +1065,9 @@ func (l *LanguageServer) StartTemplateWorker(ctx context.Context) {
 			if err != nil {
 				l.logf(log.LevelMessage, "failed to get rename params: %s", err)
 
-				continue
+				// the new contents are in the cache already, so the client must still be
+				// sent the edit that creates them; only the rename is left out
+				renameParams = types.ApplyWorkspaceAnyEditParams{Label: "Template new Rego file"}
 			}
 
 			if err = l.conn.Call(ctx, methodWorkspaceApplyEdit, types.ApplyWorkspaceAnyEditParams{
